@@ -36,7 +36,7 @@ PLAN["C01"] = dict(
                   "ghost prefix arrays built by X[k+1] = X[k] + d are the prefix sums",
                   "to_unstable: input shapes other than the two above (e.g. '-' strand with an interval path) are outside the contract; that an interval token's covering "
                   "segments tile the interval (needed to read path offsets as base identities in the interval form) is a precondition on the record",
-                  "parse laws of CONTIG:START-END tokens (split(':'), split('-'), ':' in s) as uninterpreted functions"],
+                  "parse laws of CONTIG:START-END tokens (rsplit(':', 1) (split at the last ':', F18), split('-'), ':' in s) as uninterpreted functions"],
     not_applicable_clauses=[],
     mutations=[
         dict(name="merge across orientations", file=CONV, old="if (node1.contig_id != node2.contig_id) or (orient1 != orient2):", new="if (node1.contig_id != node2.contig_id):", expect="merge_nodes", functions=[(CONV, "merge_nodes")]),
@@ -79,7 +79,7 @@ PLAN["C05"] = dict(
                 "indexed nodes of the contig whose interval intersects the closed region [a,b], as a contiguous run of the sorted list; "
                 "all list accesses in bounds; both loops terminate (decreases). The composition with --node (C04's fragment) on the CLI is covered by the bounded stand-in.",
     trusted_base=["the view index has non-empty intervals and distinct nodes of one contig are disjoint (valid rGFA; C03)",
-                  "str.split(':') / split('-') as uninterpreted functions; list(filter(P, L)), list.sort(key=), dict.keys() contracts (assumed)"],
+                  "str.rsplit(':', 1) / split('-') as uninterpreted functions; list(filter(P, L)), list.sort(key=), dict.keys() contracts (assumed)"],
     mutations=[
         dict(name="bisection <= -> <", file=VIEW, old="if node_list[m][3] <= q_s:", new="if node_list[m][3] < q_s:", expect="search"),
         dict(name="scan <= -> <", file=VIEW, old="node_list[pos][2] <= q_e:", new="node_list[pos][2] < q_e:", expect="search"),
